@@ -4,3 +4,4 @@ pub mod drive;
 pub mod gen;
 pub mod model;
 pub mod props;
+pub mod pool;
